@@ -5,22 +5,27 @@ from lib.prop import Prop
 
 class C16(Prop):
     pid = "C16"
-    lean_targets = ["M17.Props.C16"]
+    lean_targets = ["M17.Props.C16", "M17.Props.C16W"]
     theorems = ["M17.C16.blocks_only_when_it_must", "M17.C16.forever_never_gives_up", "M17.C16.close_ends_waits", "M17.C16.close_drains",
-                "M17.C16.get_on_closed_is_immediate", "M17.C16.wake_enabled"]
+                "M17.C16.get_on_closed_is_immediate", "M17.C16.wake_enabled",
+                "M17.C16W.gen_profile_ok", "M17.C16W.step_inv", "M17.C16W.run_inv", "M17.C16W.no_lost_wakeup"]
     level_text = ("Lean 4 theorems on the segment-level model of queue.h, for every reachable state: a put starts waiting only if the queue is full "
                   "and open, a get only if it is empty and not closed; with the default time-out a put returns false only if the queue is not "
                   "open and a get only if it is closed and empty; after close a woken putter returns false in its next segment and a woken "
                   "getter takes an item if any is left, else fails; items present at close are delivered, the get that takes the last one makes the "
                   "queue CLOSED, and a get on a drained closed queue fails in its first segment without waiting; a time-out wake-up exists exactly "
-                  "for finite time-outs. What the model cannot exhibit — that the real condition variables do return and the chrono deadline "
+                  "for finite time-outs. Wake-up bookkeeping (M17/Model/QueueWake.lean, notify calls taken from the current source by "
+                  "tools/gen_queue.py): for every sequence of arrivals, notified / spurious / timed-out resumptions and close, a consumer sleeps "
+                  "un-notified only while notified consumers cover every queued item, a producer only while notified producers cover every free "
+                  "slot, and after close nobody sleeps un-notified (no_lost_wakeup, induction over the operation history). What the model cannot exhibit — that the real condition variables do return and the chrono deadline "
                   "arithmetic does not overflow — is measured on every run by timing probes on the real queue (still blocked after 250 ms, "
                   "released by the peer, close returns blocked callers within 100 ms, drained closed get returns within 50 ms) under UBSan.")
     design_ref = "DESIGN.md §5 C16"
     level_note = ("Trusted: Lean kernel; std::condition_variable semantics (wait returns after notify / deadline); the segment model validated by "
                   "C15's trace replay. Partial: promptness in wall-clock terms is measured, not proved. Axioms: propext, Classical.choice, Quot.sound only.")
     technique = "Lean 4 proof (case analysis of every lock-held segment of the queue model) + timing probes and UBSan on the real queue"
-    rule = ("timing probes on capacities 1,2,3,96: default-timeout put on full / get on empty, close with blocked callers, close with items then "
+    rule = ("multi-waiter probes W1-W5 (2-3 callers blocked on one condition variable, then put+close / two puts / close / two gets / get+close; "
+            "late return or wrong outcome = violation); timing probes on capacities 1,2,3,96: default-timeout put on full / get on empty, close with blocked callers, close with items then "
             "drain, finite time-outs of 100 ms; each probe returns measured facts judged against thresholds; sequential words around close "
             "(shared with C15); distinct = probe x capacity; non-trivial = all")
 
@@ -36,7 +41,7 @@ class C16(Prop):
         lines = [f"qtime {c}" for c in caps]
         if ctx.tier != "quick":
             lines = lines * 5
-        out = ctx.run_impl(exe, lines, "queue-time", timeout=600)
+        out = ctx.run_impl(exe, lines, "queue-time", timeout=90)
         for ln, o in zip(lines, out):
             f = o.split()
             ctx.count((ln, o), nontrivial=True)
@@ -60,6 +65,27 @@ class C16(Prop):
                 if not ok:
                     ctx.violate(f"queue-time:{key}", f"queue<int,{ln.split()[1]}>: {what}", {"stream": "queue-time", "ops": [ln], "impl": o})
         ctx.sample({"op": lines[0], "reply": out[0]})
+        # several waiters on one condition variable: every one of them must be released by the event that ends its wait
+        wl = [f"qwake {c} {3 if ctx.tier == 'quick' else 15}" for c in (1, 2, 3)]
+        wout = ctx.run_impl(exe, wl, "queue-wake", timeout=240)
+        names = ["W1 consumers blocked, put+close", "W2 two consumers, two puts", "W3 producers blocked on full queue, close", "W4 two producers, two gets", "W5 producer blocked, get+close"]
+        for ln, o in zip(wl, wout):
+            f = o.split()
+            if len(f) != 15:
+                continue
+            v = [int(x) for x in f]
+            for i, nm in enumerate(names):
+                n, worst, anom = v[3 * i:3 * i + 3]
+                if n == 0:
+                    continue
+                ctx.count((ln, nm), nontrivial=True)
+                ctx.stat("wake:" + nm.split()[0], n)
+                late = worst > 400
+                bad = (i in (0, 2) and anom > 0)
+                if late or bad:
+                    ctx.violate(f"queue-wake:{nm.split()[0]}",
+                                f"queue<int,{ln.split()[1]}> {nm}: slowest waiter returned after {worst} ms (its own time-out is 2000 ms; must be released at once), {anom} anomalous outcomes in {n} trials",
+                                {"stream": "queue-wake", "ops": [ln], "impl": o, "scenario": nm})
         # sequential words around close, against the model
         rng = ctx.rng
         words = []
